@@ -81,6 +81,17 @@ pub fn format_parse_error(input: &str, err: nom::Err<NomError<&str>>) -> String 
                 (error_title, error_label.to_string(), None)
             };
 
+            // The annotated span must start and end on character boundaries:
+            // one whole (possibly multi-byte) character at the error position.
+            let span_start = (0..=offset.min(input.len()))
+                .rev()
+                .find(|index| input.is_char_boundary(*index))
+                .unwrap_or(0);
+            let span_end = input[span_start..]
+                .chars()
+                .next()
+                .map_or(span_start, |character| span_start + character.len_utf8());
+
             // Create the annotated snippet
             let renderer = Renderer::styled();
             
@@ -94,7 +105,7 @@ pub fn format_parse_error(input: &str, err: nom::Err<NomError<&str>>) -> String 
                             .fold(false)
                             .annotation(
                                 AnnotationKind::Primary
-                                    .span(offset..offset.saturating_add(1).min(input.len()))
+                                    .span(span_start..span_end)
                                     .label(&final_label)
                             )
                     )
